@@ -466,11 +466,7 @@ func build1(n *Node, rec *Recorder) z.ZogSchema {
 				case "email":
 					ns.Email(o...)
 				case "oneof":
-					xs := make([]string, len(t.Args))
-					for i, a := range t.Args {
-						xs[i] = a.S
-					}
-					ns.OneOf(xs, o...)
+					ns.OneOf(sharedStrEnum(t.Args), o...)
 				default:
 					panic("str test " + t.Name)
 				}
@@ -716,11 +712,7 @@ func ApplyStringTest(s *z.StringSchema[string], ns z.NotStringSchema[string], t 
 	case "email":
 		ns.Email(o...)
 	case "oneof":
-		xs := make([]string, len(t.Args))
-		for i, a := range t.Args {
-			xs[i] = a.S
-		}
-		ns.OneOf(xs, o...)
+		ns.OneOf(sharedStrEnum(t.Args), o...)
 	default:
 		panic("ApplyStringTest " + t.Name)
 	}
@@ -821,4 +813,46 @@ func buildPre(n *Node, rec *Recorder) z.ZogSchema {
 		}
 	}
 	panic("buildPre: " + n.PreKind + "/" + n.Elem.PK)
+}
+
+// sharedStrEnum: the enum of a string OneOf as ONE slice per distinct content for the whole process, with spare
+// capacity — the way an application declares `var roles = append(base, ...)` once and hands it to several
+// schemas. A schema only reads its enum; nothing an execution does may write into that memory.
+var (
+	enumMu    sync.Mutex
+	strEnums  = map[string][]string{}
+	enumCheck = map[string]string{}
+)
+
+func sharedStrEnum(args []D) []string {
+	key := ""
+	for _, a := range args {
+		key += fmt.Sprintf("%q,", a.S)
+	}
+	enumMu.Lock()
+	defer enumMu.Unlock()
+	if xs, ok := strEnums[key]; ok {
+		return xs
+	}
+	xs := make([]string, 0, len(args)+8)
+	for _, a := range args {
+		xs = append(xs, a.S)
+	}
+	strEnums[key] = xs
+	return xs
+}
+
+// EnumsIntact reports an enum slice whose spare capacity has been written to ("" = all intact)
+func EnumsIntact() string {
+	enumMu.Lock()
+	defer enumMu.Unlock()
+	for key, xs := range strEnums {
+		full := xs[:cap(xs)]
+		for i := len(xs); i < len(full); i++ {
+			if full[i] != "" {
+				return fmt.Sprintf("the spare capacity of the enum slice [%s] handed to OneOf now holds %q at index %d", key, full[i], i)
+			}
+		}
+	}
+	return ""
 }
